@@ -217,7 +217,7 @@ def doctests():
         lines = open(p).read().split('\n')
         lines[m['line']] = m['new']
         open(p, 'w').write('\n'.join(lines))
-        code, o = sh(f'cd {D}/repo && cargo test -q --workspace --doc --offline 2>&1 | tail -20', {'CARGO_TARGET_DIR': D + '/target-test', 'CARGO_NET_OFFLINE': 'true'}, timeout=1800)
+        code, o = sh(f'cd {D}/repo && cargo test -q -p bourse-book -p bourse-de -p bourse-macros --doc --offline 2>&1 | tail -20', {'CARGO_TARGET_DIR': D + '/target-test', 'CARGO_NET_OFFLINE': 'true'}, timeout=1800)
         r['doctests'] = 'fail' if ('FAILED' in o or 'test failed' in o or 'error' in o) else 'pass'
         print(r['id'], r['file'], r['line'], r['op'], 'doctests', r['doctests'], flush=True)
         out.append(r)
